@@ -76,16 +76,6 @@ Definition demux (nch m : Z) (buffer : list Z) : list (list Z) :=
   map (fun i => map (fun j => znth 0 buffer (i + j * nch)) (zrange 0 m)) (zrange 0 nch).
 
 (* ---------- one tick of the reader goroutine ---------- *)
-Record bufmsg := { bm_data : list (list Z); bm_stamp : Z; bm_drop : bool }.
-
-Inductive tick_out :=
-| TSmall                 (* "lancero read too small": nothing released, nothing sent *)
-| TGeom                  (* geometry mismatch: the whole read released, nothing sent *)
-| TBuf (m : bufmsg)      (* a BuffersChanType message *)
-| TPanic (k : pkind).
-
-Record tick_res := { t_pend : list Z; t_rels : list Z; t_out : tick_out }.
-
 (* whole-frame demux of [b] (already aligned), after [rels0] was released and with [pend0] = unreleased bytes *)
 Definition tick_demux (g : geom) (b pend0 rels0 : list Z) (stamp : Z) (drop : bool) : tick_res :=
   let fs := fsize g in
@@ -126,6 +116,15 @@ Definition reader_tick (g : geom) (pend chunk : list Z) (stamp : Z) : tick_res :
             tick_demux g b' pend1 [dropFromStart] stamp true
       else tick_demux g b b [] stamp false.
 
+(* the reader goroutine over a sequence of reads (chunk, card time stamp) *)
+Fixpoint reader_run (g : geom) (pend : list Z) (chunks : list (list Z * Z)) : list tick_res :=
+  match chunks with
+  | [] => []
+  | (c, stamp) :: rest =>
+      let t := reader_tick g pend c stamp in
+      t :: reader_run g (t_pend t) rest
+  end.
+
 (* ---------- updateChanOrderMap ---------- *)
 Fixpoint upd_nth {A} (l : list A) (n : nat) (v : A) : list A :=
   match l, n with
@@ -164,6 +163,13 @@ Fixpoint mix_retard (scale : float) (last : Z) (fbs errs : list Z) : Z * list Z 
       let '(last2, out) := mix_retard scale last1 fr er in
       (last2, o :: out)
   | _, _ => (last, [])
+  end.
+
+(* consecutive calls on consecutive blocks (fbs, errs) of one feedback channel *)
+Fixpoint mix_blocks (scale : float) (last : Z) (blocks : list (list Z * list Z)) : list Z :=
+  match blocks with
+  | [] => []
+  | (f, e) :: r => let '(l', o) := mix_retard scale last f e in o ++ mix_blocks scale l' r
   end.
 
 (* ---------- distributeData ---------- *)
